@@ -141,7 +141,8 @@ def stepChain (pr : ChainProg) (toks : List String) : ChainProg × String :=
                             -- white space added to the memo is a memo change; a changed message field or a signature made for
                             -- another chain id is a signature that does not match the sign bytes
                             mutn := (let m := kvOf rest "mut"
-                                     if m == "msswap" || m == "msdrop" || m == "msg" || m == "chain" then "sig"
+                                     if m == "nilint" then "garbage"   -- the amount is absent from the wire: ValidateBasic panics, the tx is refused
+                                     else if m == "msswap" || m == "msdrop" || m == "msg" || m == "chain" then "sig"
                                      else if m == "memosp" || m == "memopre" then "memo" else m), id := " ".intercalate rest }
             .tx (if mode == "check" then Mode.check else if mode == "simulate" then Mode.simulate else Mode.deliver) t
         | _ => none
